@@ -10,9 +10,14 @@ Blocks (`case <id>` … `end`):
   op rule / n <N> / ptree <T> <p_0> … <p_{N-1}> (parent of each node in the tree, -1 = none)
                  / inprev <b_0> … <b_{N-1}>    (1 = node is in that tree), one ptree+inprev pair per tree
       -> `<id> f <u> … f <u> …`   the flush rule's node set (`ruleFlush`, deduplicated) for each transition
+  op params / tab <T> <k> <mean q> <var q> (one line per table row used)
+            / node g <T> <k> <w q> <k> <w q> … g <T> …   (one line per node, in the code's loop order; `g` starts a
+              total-tips group of `get_spans(node)`)
+      -> `<id> <alpha q> <beta q> …`   `mixtureParams` with the gamma moment matching (`gamma_approx`), incl. the cache
 Anything malformed (wrong arity, trees/flush lines not alternating, zero total weight) -> `<id> bad-op`.
 -/
 import TsdateVerif.Model.Spans
+import TsdateVerif.Model.Coalescent
 import TsdateVerif.Model.Proto
 open Tsdate Tsdate.Proto Tsdate.Spans
 
@@ -51,6 +56,15 @@ def triples : List Rat → Option (List (Rat × Rat × Rat))
   | w :: m :: v :: more => (triples more).map (fun r => (w, m, v) :: r)
   | _ => none
 
+/-- `g a b g c` ↦ `[[a, b], [c]]` -/
+def splitOnG (ws : List String) : List (List String) :=
+  let r := ws.foldl (fun (acc : List (List String)) w =>
+    if w = "g" then [] :: acc
+    else match acc with
+      | [] => [[w]]
+      | g :: gs => (g ++ [w]) :: gs) []
+  r.reverse
+
 def runCase (blk : List (List String)) : Option String := do
   let id ← (← field blk "case").head?
   let op ← (← field blk "op").head?
@@ -85,6 +99,30 @@ def runCase (blk : List (List String)) : Option String := do
       let fl := (ruleFlush N a.1.2 b.1.2 a.1.1 b.1.1 (fun u => a.2[u]!)).eraseDups
       "f " ++ " ".intercalate (fl.map toString))
     pure (id ++ " " ++ " ".intercalate outs)
+  | "params" =>
+    let tab ← mapAll (fun (l : List String) => match l with
+      | [_, t, k, m, v] => do pure ((← t.toNat?, ← k.toNat?), (← parseRat m, ← parseRat v))
+      | _ => none) (blk.filter (fun l => l.head? = some "tab"))
+    let table : Nat → Nat → Rat × Rat := fun T k => (tab.lookup (T, k)).getD (0, 0)
+    let rec comps : List String → Option (List (Nat × Rat))
+      | [] => some []
+      | k :: w :: more => do
+        let k ← k.toNat?
+        let w ← parseRat w
+        let r ← comps more
+        pure ((k, w) :: r)
+      | _ => none
+    let parseNode (ws : List String) : Option (NodeRecs Rat) :=
+      mapAll (fun (g : List String) => match g with
+        | t :: cs => do
+          let t ← t.toNat?
+          let cs ← comps cs
+          if cs.any (fun c => (tab.lookup (t, c.1)).isNone) then none
+          pure (t, cs)
+        | [] => none) (splitOnG ws)
+    let nodes ← mapAll (fun (l : List String) => parseNode l.tail) (blk.filter (fun l => l.head? = some "node"))
+    let out := mixtureParams (fun m v => Coalescent.gammaApprox m v) table nodes
+    pure (id ++ " " ++ " ".intercalate (out.map (fun p => ratToString p.1 ++ " " ++ ratToString p.2)))
   | "mix" =>
     let glines := (blk.filter (fun l => l.head? = some "group")).map List.tail
     let groups ← mapAll (fun ws => do let qs ← mapAll parseRat ws; triples qs) glines
